@@ -93,7 +93,10 @@ def _ents(ctx, rname):
         spc = fed.sp_conf()
         sp = fed.make_sp(spc, [fed.metadata_of(cnf)])
         cnf["metadata"] = {"inline": [fed.metadata_of(spc)]}
-        return sp, Server(config=config_factory("aa", copy.deepcopy(cnf)), stype="aa")
+        # the role name as an application would have it at run time (read from a settings file, split from a string): equal to "aa", not the
+        # interned literal
+        role = "".join(["a", chr(97)])
+        return sp, Server(config=config_factory(role, copy.deepcopy(cnf)), stype=role)
 
     def build():
         if r.get("kind") == "aa":
